@@ -3,7 +3,8 @@ argv[1] = JSON {"terms": [...]} ; output: per term {"md5": [digests over variant
 import sys, json, itertools
 
 LEAF = {"None": lambda: None, "True": lambda: True, "False": lambda: False, "i0": lambda: 0, "i1": lambda: 1, "f0": lambda: 0.0, "f1": lambda: 1.0,
-        "fm0": lambda: -0.0, "sa": lambda: "".join(["a"]), "sb": lambda: "".join(["b"]), "ba": lambda: bytes([97]), "se": lambda: "".join([])}
+        "fm0": lambda: -0.0, "sa": lambda: "".join(["a", "x"]), "sb": lambda: "".join(["b", "x"]), "ba": lambda: bytes([97, 120]), "se": lambda: "".join([])}
+# (two-character strings / bytes: CPython caches one-character str and bytes objects, they could never be "equal but distinct")
 
 
 def order(items, variant):
